@@ -157,6 +157,24 @@ def pref_vectors(m: int, allow_zero=True, decades=2):
     return _s()
 
 
+def extra_cols_strategy():
+    """None, or a description of many extra columns (expanded from a seed at run time, so the JSON case stays small):
+    real models have thousands of parameters, most checks otherwise use n <= 10."""
+    return st.sampled_from([None] * 9 + [{"k": 90, "kind": "gauss"}, {"k": 1500, "kind": "gauss"}, {"k": 3000, "kind": "zero"}])
+
+
+def widen(J64: np.ndarray, extra, seed: int) -> np.ndarray:
+    if not extra:
+        return J64
+    m = J64.shape[0]
+    if extra["kind"] == "zero":
+        E = np.zeros((m, extra["k"]))
+    else:
+        scale = float(np.abs(J64).max(initial=0.0)) or 1.0
+        E = np.random.default_rng(seed).standard_normal((m, extra["k"])) * scale / np.sqrt(extra["k"])
+    return np.concatenate([J64, E], axis=1)
+
+
 def to_tensor(case_or_J, dtype=None):
     import torch
 
